@@ -122,7 +122,14 @@ func newMemConn(name string) *memConn {
 	return c
 }
 
+// Like *net.TCPConn, a nil *memConn answers every call with an error instead of crashing: Bridge.Start reads
+// b.sourceConn without a lock while Close clears it, and a torn read of the interface yields a typed nil.
+var errNilConn = errors.New("verif: nil connection")
+
 func (c *memConn) Read(p []byte) (int, error) {
+	if c == nil {
+		return 0, errNilConn
+	}
 	c.mu.Lock()
 	for len(c.in) == 0 && !c.eof && !c.closed {
 		c.waiting++
@@ -151,6 +158,9 @@ func (c *memConn) Read(p []byte) (int, error) {
 }
 
 func (c *memConn) Write(p []byte) (int, error) {
+	if c == nil {
+		return 0, errNilConn
+	}
 	c.mu.Lock()
 	closed := c.closed
 	c.mu.Unlock()
@@ -162,6 +172,9 @@ func (c *memConn) Write(p []byte) (int, error) {
 }
 
 func (c *memConn) Close() error {
+	if c == nil {
+		return errNilConn
+	}
 	c.mu.Lock()
 	c.closed = true
 	c.cond.Broadcast()
@@ -207,8 +220,9 @@ func (c *memConn) SetWriteDeadline(t time.Time) error { return nil }
 // ---- tunnel connection double (server bridge) ----------------------------------------------------
 
 type tconn struct {
-	id   string
-	conn *memConn
+	id      string
+	conn    *memConn
+	onClose func(t *tconn) // gate + count: TunnelConnection.Close is a clean-up action owed once per connection object
 }
 
 func (t *tconn) GetConnectionID() string           { return t.id }
@@ -217,7 +231,12 @@ func (t *tconn) GetMappingID() string              { return "pm-1" }
 func (t *tconn) GetTunnelID() string               { return "tun-1" }
 func (t *tconn) GetStream() stream.PackageStreamer { return nil }
 func (t *tconn) GetNetConn() net.Conn              { return t.conn }
-func (t *tconn) Close() error                      { return t.conn.Close() }
+func (t *tconn) Close() error {
+	if t.onClose != nil {
+		t.onClose(t)
+	}
+	return t.conn.Close()
+}
 func (t *tconn) IsClosed() bool                    { t.conn.mu.Lock(); defer t.conn.mu.Unlock(); return t.conn.closed }
 
 // ---- CloudControlAPI double ----------------------------------------------------------------------
